@@ -31,6 +31,10 @@ pub enum Host {
     SockExisting,
     SockMissing,
     SockWithColon,
+    /// a socket whose file name contains a literal '%' followed by two hex digits ("pct%41.sock", written %2541 in the URL)
+    SockWithPercent,
+    /// a host name that does not resolve; only generated together with a pre-opened TCP stream (which must be used)
+    Unresolvable,
 }
 
 #[derive(Clone, Copy, Debug, PartialEq, Eq, Hash, Serialize, Deserialize)]
@@ -76,7 +80,7 @@ pub struct Case {
 
 fn strat(_: &Ctx) -> BoxedStrategy<Case> {
     let scheme = prop_oneof![5 => Just(Scheme::Ldap), 1 => Just(Scheme::UpperLdap), 3 => Just(Scheme::Ldaps), 4 => Just(Scheme::Ldapi), 1 => Just(Scheme::Ldapx), 1 => Just(Scheme::Http)];
-    let host = prop_oneof![3 => Just(Host::V4), 3 => Just(Host::Localhost), 1 => Just(Host::V6), 2 => Just(Host::Absent), 2 => Just(Host::SockExisting), 1 => Just(Host::SockMissing), 1 => Just(Host::SockWithColon)];
+    let host = prop_oneof![3 => Just(Host::V4), 3 => Just(Host::Localhost), 1 => Just(Host::V6), 2 => Just(Host::Absent), 2 => Just(Host::SockExisting), 1 => Just(Host::SockMissing), 1 => Just(Host::SockWithColon), 1 => Just(Host::SockWithPercent), 1 => Just(Host::Unresolvable)];
     let port = prop_oneof![3 => Just(Port::Absent), 5 => Just(Port::Listening), 2 => Just(Port::Closed), 1 => Just(Port::Zero), 1 => Just(Port::NonNumeric)];
     let stream = prop_oneof![6 => Just(Stream::None), 2 => Just(Stream::Tcp), 2 => Just(Stream::Unix), 1 => Just(Stream::Invalid)];
     let timeout = prop_oneof![3 => Just(Timeout::None), 2 => (100u16..300).prop_map(Timeout::Short), 2 => Just(Timeout::Long), 1 => (0u8..4).prop_map(Timeout::Huge)];
@@ -86,13 +90,16 @@ fn strat(_: &Ctx) -> BoxedStrategy<Case> {
     );
     (scheme, host, port, 0u8..3, any::<bool>(), stream, timeout, proptest::bool::weighted(0.15), any::<bool>(), raw)
         .prop_map(|(scheme, host, port, noise, starttls, stream, timeout, silent, sync_api, raw_url)| {
-            let is_sock = matches!(host, Host::SockExisting | Host::SockMissing | Host::SockWithColon);
+            let is_sock = matches!(host, Host::SockExisting | Host::SockMissing | Host::SockWithColon | Host::SockWithPercent);
             // keep host kinds with the scheme family they make sense for (cross combinations are still URLs the library must not panic on)
             let host = match (scheme, is_sock) {
                 (Scheme::Ldapi, false) if host != Host::Absent => Host::SockExisting,
                 (Scheme::Ldap | Scheme::UpperLdap | Scheme::Ldaps, true) => Host::V4,
                 _ => host,
             };
+            // a name that does not resolve is only meaningful where the pre-opened TCP stream must be used instead (no TLS:
+            // the certificate would not match the name)
+            let host = if host == Host::Unresolvable && !(stream == Stream::Tcp && matches!(scheme, Scheme::Ldap | Scheme::UpperLdap) && !starttls) { Host::V4 } else { host };
             let silent_server = silent && starttls && matches!(scheme, Scheme::Ldap | Scheme::UpperLdap) && stream == Stream::None && port == Port::Listening;
             let timeout = if silent_server { Timeout::Short(match timeout { Timeout::Short(t) => t, _ => 150 }) } else { timeout };
             Case { scheme, host, port, noise, starttls, stream, timeout, silent_server, sync_api, raw_url }
@@ -277,7 +284,7 @@ fn expect(c: &Case, have_389: bool, have_636: bool, l1_v6: bool) -> Exp {
                 return Exp::Err;
             }
             match c.host {
-                Host::SockExisting | Host::SockWithColon => Exp::Ok(Target::UnixPath),
+                Host::SockExisting | Host::SockWithColon | Host::SockWithPercent => Exp::Ok(Target::UnixPath),
                 _ => Exp::Err,
             }
         }
@@ -345,6 +352,8 @@ fn url_of(c: &Case, l1_port: u16, closed_port: u16, sock_dir: &std::path::Path) 
         Host::SockExisting => enc(&sock_dir.join("ldapi.sock")),
         Host::SockMissing => enc(&sock_dir.join("missing.sock")),
         Host::SockWithColon => enc(&sock_dir.join("with:colon.sock")),
+        Host::SockWithPercent => enc(&sock_dir.join("pct%41.sock")),
+        Host::Unresolvable => "directory.nonexistent.invalid".to_string(),
     };
     let port = match (c.port, c.scheme) {
         (Port::Absent, _) => String::new(),
@@ -400,7 +409,7 @@ pub fn check(c: &Case, obs: &mut Obs) -> Result<(), Fail> {
     let sock_dir = std::env::temp_dir().join(format!("ldap3-verif-c18-{}-{}", std::process::id(), DIRSEQ.fetch_add(1, Ordering::SeqCst)));
     std::fs::create_dir_all(&sock_dir).map_err(|e| Fail::new("env-tmp", e.to_string()))?;
     let unix_accepted = Arc::new(AtomicUsize::new(0));
-    for name in ["ldapi.sock", "with:colon.sock"] {
+    for name in ["ldapi.sock", "with:colon.sock", "pct%41.sock"] {
         let ua = unix_accepted.clone();
         let p = sock_dir.join(name);
         let _e = rt.enter();
@@ -599,7 +608,7 @@ pub fn property() -> Property {
     Property {
         id: "C18",
         level: "exploration",
-        rule: "generated URL x settings combinations through both LdapConnAsync::with_settings and LdapConn::with_settings against real loopback endpoints: scheme {ldap, LDAP, ldaps, ldapi, ldapx, http} x host {127.0.0.1, localhost, [::1], absent, percent-encoded socket path existing / missing / containing %3A} x port {absent (default 389/636 listeners bound by the harness), a listening port, a closed port, 0, non-numeric} x path/query noise x StartTLS flag x pre-opened stream {none, connected TCP, Unix pair, Invalid} x conn_timeout {none, 100-300 ms, 10 s, practically infinite incl. Duration::MAX} x server {cooperative, silent during StartTLS}, plus syntactically broken URLs. Oracle: a reference model of the documented dispatch (DESIGN.md Appendix C) predicts Ok and WHICH endpoint must receive the connection (per-case listeners count accepts), or Err (Timeout for the silent-server case); a panic is always a violation; the silent-server case is a violation only if the client is still blocked after 100x the deadline. Non-trivial: any combination other than plain ldap://host:port with defaults. Distinct = debug rendering of the case.",
+        rule: "generated URL x settings combinations through both LdapConnAsync::with_settings and LdapConn::with_settings against real loopback endpoints: scheme {ldap, LDAP, ldaps, ldapi, ldapx, http} x host {127.0.0.1, localhost, [::1], absent, percent-encoded socket path existing / missing / containing %3A / containing a literal %41 (written %2541), a name that does not resolve (with a pre-opened TCP stream, which must be used)} x port {absent (default 389/636 listeners bound by the harness), a listening port, a closed port, 0, non-numeric} x path/query noise x StartTLS flag x pre-opened stream {none, connected TCP, Unix pair, Invalid} x conn_timeout {none, 100-300 ms, 10 s, practically infinite incl. Duration::MAX} x server {cooperative, silent during StartTLS}, plus syntactically broken URLs. Oracle: a reference model of the documented dispatch (DESIGN.md Appendix C) predicts Ok and WHICH endpoint must receive the connection (per-case listeners count accepts), or Err (Timeout for the silent-server case); a panic is always a violation; the silent-server case is a violation only if the client is still blocked after 100x the deadline. Non-trivial: any combination other than plain ldap://host:port with defaults. Distinct = debug rendering of the case.",
         assumptions: &[
             "ports 389/636 on 127.0.0.1 and ::1 are bound by the harness; if they cannot be bound those sub-cases are skipped (labelled), never reported",
             "for URLs the documentation does not define (raw broken/authority-less URLs) only a panic is a violation",
